@@ -5,6 +5,12 @@ sys.path.insert(0, '/verif')
 from harness import common, engine
 common.prime()
 DESCR = {
+ "C06-required-parameter-emitted-with-none-default": "a parameter that has no default in the description is emitted as `name=None`: the executed function does not require it (inspect.signature shows a default the description does not have)",
+ "C06-black-normalises-docstring-indentation": "written through emit.file with black, the docstring constant of the definition is re-indented and trimmed by black, so the file's syntax tree differs from the emitted one in that string (the docstring as seen by inspect.getdoc is the same)",
+ "C04-scalar-with-none-default": "a scalar option whose default is None is read back with the zero value of its type",
+ "C04-list-with-explicit-default": "a List[..] option with an explicit default does not keep it",
+ "C04-inexpressible-type": "types argparse cannot express fall back to str; nested Optional/List are reordered",
+ "C04-non-string-literal": "Literal choices that are not strings are stringified",
  "C05-intermediate-description-leaves-next-kinds-domain": "conversions compose badly: the normalisation of one kind produces a description the next kind does not carry faithfully (e.g. function/method write None for a missing default, argparse then reads the parameter as Optional[...]; argparse/class write '' or 0, the next docstring then says 'Defaults to' with nothing after it)",
  "C01-D7-default-invented-after-defaulted": "numpydoc/google invent a default for every entry after a defaulted one (and for the return entry); later kinds on the chain then fail or raise",
  "C01-D8-google-return-type-as-prose": "google reads the return type back as prose",
